@@ -18,7 +18,7 @@ fn packet(c: u8, i: u8, body: &[u8]) -> Vec<u8> {
 
 pub fn run(ctx: &Ctx) -> i32 {
     let mut report = ctx.report("C15", "exploration");
-    report.rule = "17 reply enums x all 65536 (class,instruction) pairs x bodies {empty, a canonical body of every variant of the enum (so: valid for the target and valid for another variant), a whole packet of every variant as body (with and without an acknowledgement in front), canonical bodies of types outside the enum, random bytes, truncated}; for pairs inside the reply set additionally many canonical and byte-mutated bodies. Oracle: independent reply-set table + the variant type's own decoder on the same bytes. Enumeration is duplicate-free by construction (enum, control field, body index); non-trivial = every case (each has a definite expected outcome).".into();
+    report.rule = "17 reply enums x all 65536 (class,instruction) pairs x bodies {empty, a canonical body of every variant of the enum (so: valid for the target and valid for another variant), a whole packet of every variant as body (with and without an acknowledgement in front), canonical bodies of types outside the enum, random bytes, truncated}, each body inside a reply set also behind the extended length form FF lo hi; for pairs inside the reply set additionally many canonical and byte-mutated bodies. Oracle: independent reply-set table + the variant type's own decoder on the same bytes. Enumeration is duplicate-free by construction (enum, control field, body index); non-trivial = every case (each has a definite expected outcome).".into();
     report.exhaustive = Some(true);
     report.assumptions = vec![
         "reply sets of DESIGN Appendix B (refcodec::tables) are the specification".into(),
@@ -82,6 +82,13 @@ pub fn run(ctx: &Ctx) -> i32 {
                         pk[2] = 9; // announces more than is there
                     }
                     check(r, e.name, target, &pk, false);
+                    // the same body behind the extended length form FF lo hi (not the shortest form, but every
+                    // reader of the library accepts it): inside the reply sets, and on a stride outside
+                    if target.is_some() || cf % 257 == 0 {
+                        let mut ext = vec![c, i, 0xff, body.len() as u8, (body.len() >> 8) as u8];
+                        ext.extend_from_slice(body);
+                        check(r, e.name, target, &ext, false);
+                    }
                 }
                 cf += threads as u32;
             }
@@ -109,6 +116,11 @@ pub fn run(ctx: &Ctx) -> i32 {
                     }
                     let pk = packet(c, i, &body);
                     check(r, e.name, Some(target), &pk, true);
+                    if k % 3 == 0 {
+                        let mut ext = vec![c, i, 0xff, body.len() as u8, (body.len() >> 8) as u8];
+                        ext.extend_from_slice(&body);
+                        check(r, e.name, Some(target), &ext, true);
+                    }
                 }
             }
         }
